@@ -105,3 +105,19 @@ func init() {
 		c.Assumef("canonical form drops last-access stamps, unreachable bytes, absolute coefficients (gaps kept) and absolute timestamps (per-key order kept)")
 	}})
 }
+
+func init() {
+	core.Register(&core.Check{ID: "C12", Level: "model_checking", Run: func(c *core.Ctx) {
+		depth := 6
+		if !c.Quick() {
+			depth = 8
+		}
+		kinds := []kvmc.OpKind{kvmc.OpPut, kvmc.OpPutRaw, kvmc.OpDel, kvmc.OpCompact, kvmc.OpTransfer}
+		var plans []kvPlan
+		for _, ts := range []int{128, 200} {
+			plans = append(plans, kvPlan{kvmc.Config{TableSize: ts, Keys: 3, Sizes: []int{10, 30}, Kinds: kinds, IdleTimeout: int64(15 * 60 * 1e9), MaxTables: 12}, depth})
+		}
+		c.Cov["rule"] = "storage level: in every state of the E1 BFS a full cursor scan is run for COUNT in {1,2,10} x MATCH in {none,^a,^zz}; non-trivial = distinct states whose store spans >= 2 tables"
+		runKV(c, plans, kvmc.ScanOracle, multiTable)
+	}})
+}
